@@ -91,6 +91,9 @@ func deliverToSubscription(
 					s.Where(sql.And(
 						// not necessary? maybe helps with indexes?
 						sql.EQ(t.C(message.TopicColumn), m.TopicID),
+						// ordering is per key: only an earlier message with the same
+						// key may hold this one back (and must)
+						sql.EQ(t.C(message.FieldOrderKey), *m.OrderKey),
 					))
 				},
 			).
